@@ -46,7 +46,7 @@ func (o opDesc) String() string {
 func alphabet() []opDesc {
 	var ops []opDesc
 	for _, ch := range []string{"a/", "a/b/"} {
-		for _, m := range []string{"plain", "retain", "ttl", "retain+ttl"} {
+		for _, m := range []string{"plain", "retain", "ttl", "retain+ttl", "ttl0", "retain+ttl0"} {
 			for _, st := range []bool{true, false} {
 				ops = append(ops, opDesc{"pub", ch, m, st})
 			}
@@ -157,12 +157,16 @@ func (in *inst) Apply(i int) {
 		key = in.kStore
 	}
 	retain := strings.Contains(o.Mode, "retain")
-	ttl := strings.Contains(o.Mode, "ttl")
+	ttl := strings.Contains(o.Mode, "ttl") && !strings.Contains(o.Mode, "ttl0")
+	ttl0 := strings.Contains(o.Mode, "ttl0") // an explicit ttl=0 is not a positive ttl: only the retain flag counts
 	switch o.Kind {
 	case "pub":
 		topic := key + "/" + in.pfx + o.Ch
 		if ttl {
 			topic += fmt.Sprintf("?ttl=%d", reqTTL)
+		}
+		if ttl0 {
+			topic += "?ttl=0"
 		}
 		if !in.pub.Publish(topic, []byte(payload), retain) {
 			in.fail("no-puback", "publish not acknowledged")
